@@ -49,7 +49,12 @@ func (c Cfg) String() string { return fmt.Sprintf("%s concurrent=%d", c.Op, c.Li
 
 var ops = []string{"manifest-get", "manifest-head", "manifest-put", "manifest-delete", "blob-get", "blob-get-unsized", "blob-get-rewind", "blob-get-unread", "blob-head", "blob-put", "blob-put-chunked",
 	"blob-delete", "blob-mount", "blob-copy-cross", "blob-copy-same-host", "tag-list", "tag-delete", "referrers", "repo-list", "image-copy-cross", "image-copy-index", "image-copy-to-layout", "image-copy-from-layout",
-	"referrer-put-fallback", "referrer-delete-fallback", "image-copy-referrers"}
+	"referrer-put-fallback", "referrer-delete-fallback", "image-copy-referrers", "blob-put-noseek", "blob-put-chunked-noseek"}
+
+// noSeek hides the Seek method of a reader: the body of a request fed from it cannot be produced twice
+type noSeek struct{ r io.Reader }
+
+func (n noSeek) Read(p []byte) (int, error) { return n.r.Read(p) }
 
 var faults = []string{"500", "429", "reset", "trunc", "404", "401", "cancel"}
 
@@ -276,6 +281,13 @@ func doOp(ctx context.Context, rc *regclient.RegClient, op string, lay string) e
 	case "blob-put":
 		data := []byte("fresh")
 		_, err := rc.BlobPut(ctx, rTag, descriptor.Descriptor{Digest: digest.FromBytes(data), Size: int64(len(data))}, bytes.NewReader(data))
+		return err
+	case "blob-put-noseek":
+		data := []byte("fresh")
+		_, err := rc.BlobPut(ctx, rTag, descriptor.Descriptor{Digest: digest.FromBytes(data), Size: int64(len(data))}, noSeek{bytes.NewReader(data)})
+		return err
+	case "blob-put-chunked-noseek":
+		_, err := rc.BlobPut(ctx, rTag, descriptor.Descriptor{}, noSeek{bytes.NewReader([]byte("fresh-and-longer"))})
 		return err
 	case "blob-put-chunked":
 		_, err := rc.BlobPut(ctx, rTag, descriptor.Descriptor{}, bytes.NewReader([]byte("fresh-and-longer")))
